@@ -766,9 +766,11 @@ def stopTimers (s : St) : St :=
     | none => { s with looper := none }
   | none => s
 
-/-- `stop()`: clear and possibly call back the start Deferred -/
+/-- `stop()`: the run is over - a request whose cancel the client swallowed is forgotten (its late result
+    is dropped by `_in_this_run`: the event is simply not enabled any more) -; clear and possibly call back
+    the start Deferred -/
 def stopFinish (s : St) : St :=
-  let s := { s with stopping := false }
+  let s := { s with stopping := false, requestD := .none }
   match s.startD with
   | .pending => { emit (.startFired (.ok s.lastProcessed)) s with startD := .none }
   | .called => { s with startD := .none }
